@@ -24,8 +24,14 @@ Open Scope N_scope.
    sync of its parent and not durably removed; its contents are those of its last
    data sync (explicit, or a coin), overlaid in issue order by the first k*bs
    bytes of each write issued since then (k = the draw of that write; nothing
-   with bs = 0); unsynced creates, truncations and removals are rolled back. *)
-Theorem c07_crash_image : forall bs l,
+   with bs = 0); unsynced creates, truncations and removals are rolled back.
+   _partial: create_dir_all / remove_dir_all and successful renames of regular
+   files are not covered (FsSafe.KRenameFile).  The renames the crate gets right
+   (data-synced file, left alone until a directory sync flushes the rename; across
+   directories only with the new parent synced first) are asserted by the oracle on
+   generated histories (c07_rename_cross_clean_example is one of them); the others
+   are the narrow known classes RenameFile / RenameCrossDir. *)
+Theorem c07_crash_image_partial : forall bs l,
   forallb c07_op l = true -> dsafe bs l = true ->
   Forall2 obs_ok (snd (drun (init_dworld bs) l)) (snd (run (init_world bs) l)).
 Proof. exact crash_image_lemma. Qed.
@@ -34,7 +40,7 @@ Proof. exact crash_image_lemma. Qed.
    (the definition read back): the contents of the last data sync, overlaid in
    issue order by a block-aligned prefix (first min (k*bs) len bytes, k the draw)
    of each pending write of a file with a durable entry; pending truncations are
-   dropped.  c07_crash_image (any bs) says the implementation does exactly this. *)
+   dropped.  c07_crash_image_partial (any bs) says the implementation does exactly this. *)
 Theorem c07_torn : forall bs m cont i off data ws draws,
   durable_ino m i = true -> data <> [] ->
   torn bs m cont ((i, off, data) :: ws) draws =
@@ -62,7 +68,7 @@ Proof. exact unsynced_entry_gone_lemma. Qed.
 (* Bytes that were never written never appear: in EVERY history (any operations,
    any crashes, any coins, any torn-write block size and draws) every byte the
    reference ever returns from a read is 0 or one of the bytes handed to a write
-   operation of that history.  Together with c07_crash_image the same holds for
+   operation of that history.  Together with c07_crash_image_partial the same holds for
    the implementation's reads. *)
 Theorem c07_no_unwritten_bytes : forall bs l k b,
   nth k (snd (drun (init_dworld bs) l)) ONoSlot = OBytes b -> okb (written l) b.
@@ -82,6 +88,16 @@ Theorem c07_rename_file_refuted :
   d_in_class 0 KRenameFile wd_rename_file = true /\
   dspec_out 0 wd_rename_file 9 = OBytes [65; 66] /\ dimpl_out 0 wd_rename_file 9 = OBytes [].
 Proof. exact c07_rename_file_refuted_lemma. Qed.
+
+Theorem c07_rename_cross_src_first_refuted :
+  dspec_out 0 wd_rename_cross_src_first 11 = OBytes [65; 66] /\
+  dimpl_out 0 wd_rename_cross_src_first 11 = OErr ENOENT.
+Proof. exact c07_rename_cross_src_first_refuted_lemma. Qed.
+
+Example c07_rename_cross_clean_example :
+  Forall2 obs_ok (snd (drun (init_dworld 0) wd_rename_cross_clean)) (snd (run (init_world 0) wd_rename_cross_clean)) /\
+  dimpl_out 0 wd_rename_cross_clean 10 = OBytes [65; 66] /\ dimpl_out 0 wd_rename_cross_clean 11 = OBool false.
+Proof. exact c07_rename_cross_clean_example_lemma. Qed.
 
 Theorem c07_recreate_refuted :
   d_in_class 0 KRecreate wd_recreate = true /\
@@ -107,13 +123,15 @@ Example c07_torn_nonvacuous :
   dimpl_out 2 hd_torn 7 = OBytes [65; 88; 89; 68; 69] /\ dspec_out 2 hd_torn 7 = OBytes [65; 88; 89; 68; 69].
 Proof. vm_compute. repeat split; reflexivity. Qed.
 
-Print Assumptions c07_crash_image.
+Print Assumptions c07_crash_image_partial.
 Print Assumptions c07_torn.
 Print Assumptions c07_synced_never_lost.
 Print Assumptions c07_unsynced_entry_gone.
 Print Assumptions c07_no_unwritten_bytes.
 Print Assumptions c07_random_sync.
 Print Assumptions c07_rename_file_refuted.
+Print Assumptions c07_rename_cross_src_first_refuted.
+Print Assumptions c07_rename_cross_clean_example.
 Print Assumptions c07_recreate_refuted.
 Print Assumptions c07_kind_swap_refuted.
 Print Assumptions c07_nonvacuous.
